@@ -181,6 +181,17 @@ impl Carrier {
     }
 }
 
+/// Verification hooks (feature `verif`, off by default): read-only projection of the in-memory state.
+#[cfg(feature = "verif")]
+impl Carrier {
+    pub(crate) fn verif_state(&self) -> (u32, Vec<(Txid, ConfirmationStatus)>) {
+        (
+            self.block_height,
+            self.issued_receipts.iter().map(|(k, v)| (*k, *v)).collect(),
+        )
+    }
+}
+
 #[cfg(test)]
 mod tests {
     use super::*;
